@@ -131,6 +131,18 @@ def poly_fails(case):
     want = np.array([float(exact_partial(terms, xs, tuple(int(a) for a in alpha)) / math.prod(math.factorial(int(a)) for a in alpha)) for alpha in mi])
     if not close(np.ravel(T), want, 1e-8):
         return 'poly-tensor: extract_tensor (d=%d) differs from the exact partial derivatives / multi-index factorial' % d
+    # the default (full array) mode of extract_tensor: the symmetric rank-d array of all partial derivatives
+    if d <= 3:
+        try:
+            Tf = np.asarray(UTPM.extract_tensor(N, f(UTPM.init_tensor(d, np.asarray(x, dtype=float)))), dtype=float)
+        except Exception as ex:
+            return 'poly-tensor-full-exception: extract_tensor (d=%d, default as_full_matrix) raised %s' % (d, type(ex).__name__)
+        wantf = np.zeros((N,) * d)
+        for idx in itertools.product(range(N), repeat=d):
+            alpha = tuple(sum(1 for i in idx if i == n_) for n_ in range(N))
+            wantf[idx] = float(exact_partial(terms, xs, alpha))
+        if Tf.shape != wantf.shape or not close(Tf, wantf, 1e-8):
+            return 'poly-tensor-full: extract_tensor (d=%d) in its default full-array mode is not the array of all d-th order partial derivatives (shape %s)' % (d, Tf.shape)
     # the same seed point given as a matrix (row-major order of the variables) in every memory layout
     for (r, c) in [(a, N // a) for a in range(1, N + 1) if N % a == 0]:
         Xc = np.array(xs, dtype=float).reshape(r, c)
